@@ -291,7 +291,10 @@ impl MockServer {
                     tokio::pin!(stopn);
                     tokio::select! {
                         _ = sess.run(sock, l3.clone(), kill2.clone()) => {}
-                        _ = kill2.notified() => {}
+                        _ = kill2.notified() => {
+                            // abrupt server-side close (socket dropped with the future)
+                            sh3.push(idx, conn, EvKind::Close { by_terminate: false });
+                        }
                         _ = &mut stopn => {}
                     }
                     l3.lock().unwrap().remove(&conn);
